@@ -24,6 +24,19 @@ def add_to(run):
             obs += fv.obs
     except Unsupported as e:
         run.bounded_notes.append(f"memory_map setters: outside the pyvc subset on this tree ({e}); the bounded validation clause decides")
+    # the constructors of the three bus signatures, for all parameter values
+    try:
+        from contracts import sig_init
+        for f in sig_init.ALL:
+            fv = f()
+            run.functions["amaranth_soc." + fv.qualname] = f"proved ({fv.paths} paths, {len(fv.obs)} obligations): accepts iff the parameters are valid, stores them as given, member table follows them"
+            run.require(f"{fv.qualname}::accepts-only-valid-parameters", f"{fv.qualname}::no-other-member")
+            obs += fv.obs
+        run.require("wishbone.bus.Signature.__init__::features-iterated-exactly-once")
+        run.assumptions.append("signature constructors: In/Out, wiring.Signature.__init__, Feature() and Element.Access() are recording stubs; a feature "
+                               "iterable is abstract (which features it yields is an uninterpreted predicate, whether all convert a free Boolean)")
+    except Unsupported as e:
+        run.bounded_notes.append(f"signature constructors: outside the pyvc subset on this tree ({e}); the bounded member tables decide")
     run.assumptions += BASE_ASSUMPTIONS_L1 + ["parameters are canonical values (enum members, frozensets, cast shapes) whose Python equality is "
                                               "the equality of the integers standing for them; Shape.cast is uninterpreted"]
     discharge_all(run, obs, timeout_ms=10000)
